@@ -1,5 +1,6 @@
 import CssVerif.Driver.Proto
 import CssVerif.Model.Escape
+import CssVerif.Model.Respell
 namespace CssVerif.EscOps
 open CssVerif CssVerif.Escape CssVerif.Proto
 
@@ -13,6 +14,18 @@ def opEscAll (enc hex : String) : String :=
 def opUnesc (hex : String) : String :=
   match parseText hex with
   | some t => showText (cssUnescape t)
+  | none => "bad-op"
+
+/-- `decode <text>`: escapes read, then normalised (C10) -/
+def opDecode (hex : String) : String :=
+  match parseText hex with
+  | some t => showText (Respell.decode t)
+  | none => "bad-op"
+
+/-- `norm <text>`: `helper.normalize` -/
+def opNorm (hex : String) : String :=
+  match parseText hex with
+  | some t => showText (Respell.normalize t)
   | none => "bad-op"
 
 end CssVerif.EscOps
